@@ -198,7 +198,10 @@ Proof.
 Qed.
 
 (* NewFactory: the two rejections of enum_new in the same order, then the factory for (values, no ranks); a
-   negative size hint is a Go panic (make) — after the two tests *)
+   negative size hint is a Go panic (make) — after the two tests.  The value table of the factory is a FRESH copy
+   of the declaration (values = append(make([]string, 0, len(values)), values...), the repair of finding F27): in
+   the list reading the same list — make([]string, 0, len(values)) cannot panic —, and the reason why the value
+   reading of the later appends to it is exact (tools/qf2coq/enumfac.go rejects a NewFactory without the copy) *)
 Definition factory_of (values : list bytes) : gef_Factory :=
   gef_mk_Factory (gef_mk_Column [] values (negb (Nat.eqb (length values) 0))) (fac_map values 0%Z []).
 
@@ -213,6 +216,8 @@ Proof.
   destruct (255 <? length values) eqn:E1.
   - apply Nat.ltb_lt in E1. destruct (255 <? Z.of_nat (length values))%Z eqn:E2; [reflexivity|lia].
   - apply Nat.ltb_ge in E1. destruct (255 <? Z.of_nat (length values))%Z eqn:E2; [lia|].
+    (* values = append(make([]string, 0, len(values)), values...): the fresh copy is the same list *)
+    unfold gef_make0 at 1. destruct (Z.of_nat (length values) <? 0)%Z eqn:E0; [lia|]. cbn [obind app].
     assert (HL := NewFactory_loop values h values [] [] map_rep_nil ltac:(cbn [length]; lia)).
     change (Z.of_nat (length (@nil bytes))) with 0%Z in HL. rewrite HL. clear HL.
     rewrite (dup_scan_nodup values [] eq_refl). cbn [app].
